@@ -764,12 +764,13 @@ class Filterbank(ABC):
                                 "nchans": 1,
                                 "nbits": 32,
                                 "data_type": "time series",
+                                "fch1": self.header.fch1 + int(chan) * self.header.foff,
                                 "tstart": self.header.mjd_after_nsamps(start),
                             },
                             nbits=32,
                         ),
                     )
-                    for filename in batch_files
+                    for chan, filename in zip(batch_chans, batch_files)
                 ]
                 for nsamps_r, _, data in self.read_plan(
                     gulp=gulp,
